@@ -13,6 +13,8 @@
 (*     rr,ro target_power of the LATEST report each group has received so far *)
 (*           (None = -99: no report yet, or a report without a target)        *)
 (*     rb,ob per actor <<lo, hi>> of the latest report's bounds               *)
+(*     older,ans,lat  (result steps) the injected Result carried a Request    *)
+(*           object older than the latest one; its power; the latest's power  *)
 (* The spec action is re-executed on the recorded arguments.  Clauses:        *)
 (*   C11.SentIsSum / C11.SentInBounds  on the code's values only.  The        *)
 (*       verdict line's `deviations` names the deviation of PowerManager.tla  *)
@@ -76,6 +78,12 @@ ObsChecks(o, a, olddev) ==
        \* target only and the other group's current target had to be substituted
        /\ Check(~DevUnchangedOf(last', R'.m, O'.m), "OBS.UnchangedGroupSubstituted",
                 <<"no_shift", last'.r, "shift", last'.o, "sent", o.req>>)
+       \* informational (vacuity guard): the first PartialFailure of a run answered a request OLDER than
+       \* the latest one (ans = power of the answered Request object, lat = power of the latest request)
+       /\ Check(~(a = "result" /\ last'.kind = "none" /\ last'.must /\ o.older),
+                "OBS.LatePartialFailure", <<"answered", o.ans, "latest", o.lat>>)
+       /\ Check(~(a = "result" /\ last'.kind = "none" /\ last'.must /\ o.older /\ o.ans # o.lat),
+                "OBS.LatePartialFailureOtherPower", <<"answered", o.ans, "latest", o.lat, "sent", o.req>>)
        \* informational: nothing was sent although the request in force lies outside the new bounds
        /\ Check(~(a = "bounds" /\ o.req = <<>> /\ lastReq # None /\ ~SentInBoundsOf(lastReq, sys')),
                 "OBS.RequestInForceOutsideNewBounds", <<"in force", lastReq, "bounds", sys'.lo, sys'.hi>>)
@@ -92,6 +100,7 @@ TInit ==
     /\ clock = 0 /\ lastPartial = FALSE
     /\ last = [Idle EXCEPT !.kind = "none"]
     /\ rep = [r |-> None, o |-> None]
+    /\ reqs = <<>>
     /\ h = <<>>
 
 Done == Say([tid |-> Tr.id, done |-> TRUE])
@@ -102,7 +111,7 @@ HistStep ==
        /\ IF r.a = "bounds" THEN BoundsUpdate(SysOf(r))
           ELSE IF r.a = "reg" THEN RegProposal(QOf(r))
           ELSE IF r.a = "op" THEN OpProposal(QOf(r))
-          ELSE IF r.a = "result" THEN Result(r.k)
+          ELSE IF r.a = "result" THEN Result(r.k, r.back)
           ELSE IF r.a = "tick" THEN Tick
           ELSE FALSE
        /\ ObsChecks(r.obs, r.a, OldDesignDeviation(r))
